@@ -8,6 +8,8 @@
 EXTENDS Lexers, Json
 
 CONSTANTS MaxLen, Alphabet, TemplateIds, HistLen
+\* (in Alphabet, 255255 stands for a single byte that is not UTF-8 (0xFF): the harness writes that byte; to the
+\* sanitizer and the tokenizer it is one more character that means nothing)
 
 VARIABLES cs, out, pc
 vars == <<cs, out, pc>>
@@ -23,6 +25,10 @@ T(id) == CASE id = 1 -> <<83,69,76,69,67,84,32,36,49,32,65,83,32,118,32,70,82,79
            [] id = 8 -> <<83,69,76,69,67,84,32,36,49,32,65,83,32,97,32,70,82,79,77,32,100,117,97,108,32,45,45,10,32,87,72,69,82,69,32,49,32,61,32,49,32,45,45,13,36,49>>      \* ... --<LF> WHERE 1 = 1 --<CR>$1
            [] id = 9 -> <<83,69,76,69,67,84,32,97,32,65,83,32,96,100,105,114,92,96,44,32,39,96,32,36,49,39,32,65,83,32,108,105,116,44,32,36,49,32,65,83,32,118,32,70,82,79,77,32,116,32,87,72,69,82,69,32,97,32,61,32,55>>
                         \* SELECT a AS `dir\`, '` $1' AS lit, $1 AS v FROM t WHERE a = 7   (a backslash has no meaning inside back quotes)
+           [] id = 10 -> <<83,69,76,69,67,84,32,36,49,32,65,83,32,97,32,70,82,79,77,32,100,117,97,108,32,47,47,32,110,111,116,101,32,36,49>>      \* SELECT $1 AS a FROM dual // note $1
+           [] id = 11 -> <<83,69,76,69,67,84,32,36,49,32,65,83,32,97,32,70,82,79,77,32,100,117,97,108,32,45,45,32,110,111,116,101,13,32,36,49>>      \* SELECT $1 AS a FROM dual -- note<CR> $1
+           [] id = 12 -> <<83,69,76,69,67,84,32,53,45,45,51,32,65,83,32,119,44,32,36,49,32,65,83,32,97,32,70,82,79,77,32,100,117,97,108,32,35,32,120,92,10,32,87,72,69,82,69,32,36,49,32,61,32,36,49>>
+                        \* SELECT 5--3 AS w, $1 AS a FROM dual # x\<LF> WHERE $1 = $1   (5--3 is 5 - -3; the backslash does not join the lines)
            \* templates that leave the lexer in the middle of something (used as the earlier call of a history)
            [] id = 20 -> <<83,69,76,69,67,84,32,49,32,47,42,32,107,101,121,115,58,32,117,115,101,114,47,42,32,97,110,100,32,103,114,111,117,112,47,42,32,42,47,32,70,82,79,77,32,100,117,97,108>>
            [] id = 21 -> <<83,69,76,69,67,84,32,49,32,47,42,32,47,42>>
